@@ -34,10 +34,15 @@ type cfg struct {
 	cipher kex.CipherSuiteID
 	reuse  bool
 	rounds int
+	hwHmac bool // the device HMAC is hardware-style and may fail at any finalisation
 }
 
 func (c cfg) String() string {
-	return fmt.Sprintf("%s/enc%d/%s/%s/reuse=%v/k=%d", c.kind.Name, c.enc, c.suite, c.cipher, c.reuse, c.rounds)
+	hw := ""
+	if c.hwHmac {
+		hw = "/hw-hmac"
+	}
+	return fmt.Sprintf("%s/enc%d/%s/%s/reuse=%v/k=%d%s", c.kind.Name, c.enc, c.suite, c.cipher, c.reuse, c.rounds, hw)
 }
 
 var faultNames = []string{"pass", "request-lost", "response-lost", "response-replaced-by-error", "context-cancelled"}
@@ -92,6 +97,15 @@ func storeFaults(c *explore.Ctx, s *lab.Server, trace *[]string, phase string) {
 	}
 }
 
+// agree is the oracle's comparison of credential and voucher; it computes MACs with a sound HMAC whatever the
+// device's own (possibly failing) hardware does.
+func agree(w *lab.World, cred *fdo.DeviceCredential, dev *lab.Device, voucher []byte) string {
+	f := dev.HmacFault
+	dev.HmacFault = nil
+	defer func() { dev.HmacFault = f }()
+	return lab.Agree(cred, dev, voucher)
+}
+
 type verdict struct {
 	key, what string
 }
@@ -99,6 +113,7 @@ type verdict struct {
 // history runs one complete history under the explorer's choices and returns violations.
 func history(c *explore.Ctx, cf cfg) (viol []verdict, trace []string, outcome string) {
 	ctx := context.Background()
+	var hmacPhase *string
 	bad := func(key, format string, a ...any) { viol = append(viol, verdict{key, fmt.Sprintf(format, a...)}) }
 	w := lab.NewWorld(cf.kind, cf.enc)
 	owners := []*lab.Server{w.Owner, w.Owner2, lab.NewMemServer("owner3", "owner3")}
@@ -114,6 +129,19 @@ func history(c *explore.Ctx, cf cfg) (viol []verdict, trace []string, outcome st
 	// then holds directives from before and must still adopt exactly what the owner chose
 	owners[1].RvInfo = [][]protocol.RvInstruction{}
 	w.Mfg.RvInfo = [][]protocol.RvInstruction{{{Variable: protocol.RVDns, Value: mustCBOR("rv0.example")}}}
+	// the device's secret-keyed HMAC is hardware-style: every finalisation (Sum) is a choice point {works, fails};
+	// a failure is reported through the optional Err() method and must fail the run like any other fault
+	if cf.hwHmac {
+		phaseNow := "DI"
+		hmacPhase = &phaseNow
+		w.Dev.HmacFault = func(op string) bool {
+			if c.Choose(2, 1) == 1 {
+				trace = append(trace, fmt.Sprintf("%s device HMAC %s fails", *hmacPhase, op))
+				return true
+			}
+			return false
+		}
+	}
 	// ---- DI ----
 	var cancel context.CancelFunc
 	dctx, cn := context.WithCancel(ctx)
@@ -142,7 +170,7 @@ func history(c *explore.Ctx, cf cfg) (viol []verdict, trace []string, outcome st
 		bad("di-no-voucher", "DI succeeded but the manufacturer stored no voucher for the credential's GUID")
 		return viol, trace, "di-broken"
 	}
-	if msg := lab.Agree(w.Dev.Cred, w.Dev, mv); msg != "" {
+	if msg := agree(w, w.Dev.Cred, w.Dev, mv); msg != "" {
 		bad("di-disagree:"+cf.kind.Name, "after DI: %s", msg)
 	}
 	// ---- rounds ----
@@ -180,6 +208,9 @@ func history(c *explore.Ctx, cf cfg) (viol []verdict, trace []string, outcome st
 		tctx, tcn := context.WithCancel(ctx)
 		cancel = tcn
 		phase := fmt.Sprintf("TO2#%d", round)
+		if hmacPhase != nil {
+			*hmacPhase = phase
+		}
 		faulty(c, wire, &trace, phase, &cancel)
 		storeFaults(c, next, &trace, phase)
 		// the owner's operator changes the rendezvous policy while a session is under way: before any TO2 exchange the
@@ -265,7 +296,7 @@ func history(c *explore.Ctx, cf cfg) (viol []verdict, trace []string, outcome st
 				bad("voucher-not-replaced", "%s: old voucher present=%v, new voucher present=%v", phase, old, ok)
 				return viol, trace, "broken"
 			}
-			if msg := lab.Agree(cred, w.Dev, nv); msg != "" {
+			if msg := agree(w, cred, w.Dev, nv); msg != "" {
 				bad("disagree:"+cf.kind.Name, "after %s (faults %v): %s", phase, trace, msg)
 			}
 			if cred.GUID == oldGUID {
@@ -333,23 +364,24 @@ func main() {
 	var cfgs []cfg
 	k := keys.KindByName
 	for _, reuse := range []bool{false, true} {
-		cfgs = append(cfgs, cfg{k("ec256"), protocol.X509KeyEnc, kex.ECDH256Suite, kex.A128GcmCipher, reuse, 2},
-			cfg{k("ec384"), protocol.CoseKeyEnc, kex.ECDH384Suite, kex.A256GcmCipher, reuse, 2},
-			cfg{k("rsa2048restr"), protocol.X5ChainKeyEnc, kex.ASYMKEX2048Suite, kex.CoseAes128CtrCipher, reuse, 2},
-			cfg{k("rsapss3072"), protocol.X509KeyEnc, kex.DHKEXid15Suite, kex.CoseAes256CbcCipher, reuse, 2})
+		cfgs = append(cfgs, cfg{k("ec256"), protocol.X509KeyEnc, kex.ECDH256Suite, kex.A128GcmCipher, reuse, 2, false},
+			cfg{k("ec384"), protocol.CoseKeyEnc, kex.ECDH384Suite, kex.A256GcmCipher, reuse, 2, false},
+			cfg{k("rsa2048restr"), protocol.X5ChainKeyEnc, kex.ASYMKEX2048Suite, kex.CoseAes128CtrCipher, reuse, 2, false},
+			cfg{k("rsapss3072"), protocol.X509KeyEnc, kex.DHKEXid15Suite, kex.CoseAes256CbcCipher, reuse, 2, false})
 	}
+	cfgs = append(cfgs, cfg{k("ec256"), protocol.X509KeyEnc, kex.ECDH256Suite, kex.A128GcmCipher, false, 2, true}, cfg{k("ec384"), protocol.X509KeyEnc, kex.ECDH384Suite, kex.A256GcmCipher, true, 2, true})
 	if !r.Quick() {
 		for _, kd := range keys.Kinds {
 			for _, enc := range kd.Encodings() {
 				for _, reuse := range []bool{false, true} {
-					cfgs = append(cfgs, cfg{kd, enc, lab.DefaultSuite(kd), kex.A128GcmCipher, reuse, 3})
+					cfgs = append(cfgs, cfg{kd, enc, lab.DefaultSuite(kd), kex.A128GcmCipher, reuse, 3, false})
 				}
 			}
 		}
-		cfgs = append(cfgs, cfg{k("rsapkcs3072"), protocol.X509KeyEnc, kex.ASYMKEX3072Suite, kex.A192GcmCipher, false, 3}, cfg{k("rsapss2048"), protocol.X5ChainKeyEnc, kex.DHKEXid14Suite, kex.CoseAes128CbcCipher, false, 3},
-			cfg{k("rsa2048restr"), protocol.X509KeyEnc, kex.ECDH256Suite, kex.CoseAes256CtrCipher, false, 3})
+		cfgs = append(cfgs, cfg{k("rsapkcs3072"), protocol.X509KeyEnc, kex.ASYMKEX3072Suite, kex.A192GcmCipher, false, 3, false}, cfg{k("rsapss2048"), protocol.X5ChainKeyEnc, kex.DHKEXid14Suite, kex.CoseAes128CbcCipher, false, 3, false},
+			cfg{k("rsa2048restr"), protocol.X509KeyEnc, kex.ECDH256Suite, kex.CoseAes256CtrCipher, false, 3, false})
 	}
-	r.Rule("histories DI -> k x (hand-over to the next owner by extension/resale, credential written to and re-read from its blob encoding, TO2) explored with the deviation-bounded explorer: every HTTP exchange of DI and TO2 is a choice point {pass, request lost, response lost after the server processed it, response replaced by an FDO error, context cancelled} every store call of the serving side is a choice point {pass, fail}, and before every TO2 exchange the owner's rendezvous policy callback may start returning other instructions (policy updated mid-session); bound 1 is complete for every configuration (thorough: bound 2 for two configurations). Oracles in every execution: after each successful DI/TO2 the stored voucher verifies against the credential the device now holds (header MAC under the device secret, manufacturer-key hash, GUID, rendezvous info - owners assign new rendezvous info, every second owner an empty list -, certificate hash) and the next hand-over + TO2 works; with reuse nothing changes; a TO2 that fails before the owner produced Done2 leaves the owner's voucher store byte-identical, returns no credential, and an honest retry succeeds; a lost Done2 is counted as the inherent commit window. distinct = distinct (outcome, fault trace).")
+	r.Rule("histories DI -> k x (hand-over to the next owner by extension/resale, credential written to and re-read from its blob encoding, TO2) explored with the deviation-bounded explorer: every HTTP exchange of DI and TO2 is a choice point {pass, request lost, response lost after the server processed it, response replaced by an FDO error, context cancelled} every store call of the serving side is a choice point {pass, fail}, every finalisation of the device's HMAC is a choice point {works, fails} for two hardware-style configurations, and before every TO2 exchange the owner's rendezvous policy callback may start returning other instructions (policy updated mid-session); bound 1 is complete for every configuration (thorough: bound 2 for two configurations). Oracles in every execution: after each successful DI/TO2 the stored voucher verifies against the credential the device now holds (header MAC under the device secret, manufacturer-key hash, GUID, rendezvous info - owners assign new rendezvous info, every second owner an empty list -, certificate hash) and the next hand-over + TO2 works; with reuse nothing changes; a TO2 that fails before the owner produced Done2 leaves the owner's voucher store byte-identical, returns no credential, and an honest retry succeeds; a lost Done2 is counted as the inherent commit window. distinct = distinct (outcome, fault trace).")
 	var wg sync.WaitGroup
 	sem := make(chan struct{}, 16)
 	for i, cf := range cfgs {
